@@ -273,3 +273,66 @@ func ruleCNV5(p *Program) *RuleResult {
 	r.floor("conversion_functions", 16)
 	return r
 }
+
+// CNV6: a String is converted by parsing exactly the text it holds: under a
+// String input the conversion hands the input text itself — not a prefix, a
+// trimmed or otherwise rewritten copy — to the parser of the target type, so
+// that only texts the parser accepts convert.
+func ruleCNV6(p *Program) *RuleResult {
+	r := newResult("CNV6")
+	st, err := systemTypes(p)
+	if err != nil {
+		return r.anchorFail(err)
+	}
+	probes := []string{"2020-01-01T10:00:00", "2020T", "2020-01-01Tjunk", " 12 ", "1e3", "T10:00:00", "true ", "10:00:00Z", "+5", "0x10"}
+	for _, t := range []struct{ conv, parser string }{
+		{"ToDate", "ParseDate"}, {"ToDateTime", "ParseDateTime"}, {"ToTime", "ParseTime"},
+		{"ToDecimal", "ParseDecimal"}, {"ToInteger", "ParseInteger"}, {"ToBoolean", "ParseBoolean"},
+	} {
+		fn, err := p.Func("fhirpath/internal/funcs/impl", t.conv)
+		if err != nil {
+			return r.anchorFail(err)
+		}
+		bad, undec := "", ""
+		for _, s := range probes {
+			r.count("probes", 1)
+			an := newAnalyzer()
+			an.maxBlocks = 300
+			an.callModel = func(c *ssa.CallCommon, args []aval) (aval, bool) {
+				if sc := c.StaticCallee(); sc != nil && short(sc) == "fhirpath/system."+t.parser {
+					return tupleTop(sc.Signature), true
+				}
+				return aval{}, false
+			}
+			res := an.analyze(fn, []aval{nonnil("ctx"), coll(st.strItem(s)), sliceLen(0)})
+			n := 0
+			for _, co := range res.calls {
+				if co.callee == nil || short(co.callee) != "fhirpath/system."+t.parser || len(co.args) == 0 {
+					continue
+				}
+				n++
+				if got, ok := constStr(co.args[0]); !ok {
+					if undec == "" {
+						undec = fmt.Sprintf("%s(%q): the text handed to %s is not determined (%s)", t.conv, s, t.parser, co.args[0].String())
+					}
+				} else if got != s && bad == "" {
+					bad = fmt.Sprintf("%s(%q) parses %q", t.conv, s, got)
+				}
+			}
+			if n == 0 && undec == "" {
+				undec = fmt.Sprintf("%s(%q) does not reach %s", t.conv, s, t.parser)
+			}
+		}
+		key := "impl." + t.conv + "|String→" + t.parser
+		switch {
+		case bad != "":
+			r.bad(key, bad+": the parser sees a rewritten text", p.pos(fn.Pos()), "strings that are not valid for the target type convert (or valid ones do not): the conversion table is decided on another text than the input")
+		case undec != "":
+			r.undecided(key, undec, p.pos(fn.Pos()), "SCCP with the input string pinned")
+		default:
+			r.ok(key, fmt.Sprintf("%s hands the input text itself to system.%s on %d probe strings", t.conv, t.parser, len(probes)), p.pos(fn.Pos()), "SCCP with the input item pinned to a String constant; argument of the parser call", true)
+		}
+	}
+	r.floor("probes", 60)
+	return r
+}
